@@ -1046,15 +1046,15 @@ def _self_fields_read(facts, path, depth=3, _seen=None):
     return out
 
 
-SIZED_KINDS = ("Vector", "String", "Continuation")
+SIZED_KINDS = ("Vector", "String", "Continuation", "Lambda", "LexicalEnv", "Symbol")
 
 
 def r12p(ctx, rep, rule="R12p"):
     """the collection gate weighs what a cell holds outside the heap"""
     from ..flow import Labels
     facts, cg = ctx["facts"], ctx["cg"]
-    rep.rule(rule, "one cell, any size: a vector, a string and a continuation's saved stack each occupy a single heap cell however "
-             "large they are, so a gate that counts cells alone lets dead megabyte objects pile up until 75%% of the cells are "
+    rep.rule(rule, "one cell, any size: a vector, a string, a continuation's saved stack, a procedure's code, an environment and a "
+             "symbol's name each occupy a single heap cell however large they are, so a gate that counts cells alone lets dead megabyte objects pile up until 75%% of the cells are "
              "taken (thousands of them) — memory then follows the work done, not the live data. Necessary shape: (i) the condition "
              "under which run_gc returns without collecting reads a Heap field that (ii) Heap::put and Heap::maybe_put update, "
              "when they store a value in a fresh cell, with a number derived from that value; (iii) the function that derives it "
